@@ -60,6 +60,18 @@ structure PutSite where
   inTail : Bool
   deriving DecidableEq, Repr, Inhabited
 
+/-- one field of a struct type reachable from a loaded font; `writes` = sites that mutate a container
+field (map, sync.Map, sync.Pool, chan) after construction -/
+structure FieldFact where
+  pkg : String
+  struct : String
+  name : String
+  typ : String
+  pos : String
+  container : Bool
+  writes : List Site
+  deriving DecidableEq, Repr, Inhabited
+
 /-! ## Discipline of one variable (decidable; evaluated over the whole extracted table) -/
 
 def Site.inOnce (o : String) (s : Site) : Bool := s.sync == .once o
